@@ -161,6 +161,15 @@ def one_case(ctx, k, kind):
             mc = G.first_order(ctx.rng("again", tries), kind)
     if mc.mesh.t.shape[1] > 200:
         raise Skip("mesh-too-large")
+    if rec.mesh_req == "any" and rng.random() < 0.25:
+        # map-like coordinates: a 10 m grid half a million metres from the origin (selection by coordinates must
+        # still single out one vertex / facet / cell)
+        m_ = mc.mesh
+        off = np.array([500000.0, 4649776.0, 1024.0][:m_.p.shape[0]])[:, None]
+        mc = G.MeshCase(type(m_)(np.asarray(m_.p) * 10.0 + off, np.asarray(m_.t)), mc.kind, mc.order,
+                        dict(mc.desc, coordinates="x10+5e5"), affine_cells=mc.affine_cells, straight=mc.straight,
+                        planar_faces=mc.planar_faces)
+        ctx.reached("large-coordinate-offset")
     mesh0 = mc.mesh
     dim = mc.dim
     nf = mesh0.facets.shape[1]
@@ -323,6 +332,17 @@ def one_case(ctx, k, kind):
                 ctx.reached("filter:all-name")
                 if wantn and wantn != wantset:
                     ctx.nontrivial(rec.name, sel, "name:" + nm)
+            # the empty list of names is a filter too (a programmatically built list may be empty)
+            try:
+                e_all = set(np.asarray(view.all([])).tolist())
+                e_keep = set(view.keep([]).flatten().tolist())
+                e_drop = set(view.drop([]).flatten().tolist())
+                ctx.check("skip-keep-drop-consistent", e_all == set() and e_keep == set() and e_drop == wantset,
+                          mech=f"empty-name-list:{base}", selector=sel, all_=len(e_all), keep=len(e_keep), drop=len(e_drop),
+                          want=len(wantset), **tag)
+                ctx.reached("filter:empty-name-list")
+            except Exception as ex:
+                ctx.check("skip-keep-drop-consistent", False, mech=f"empty-name-list-raises:{base}", error=repr(ex)[:200], **tag)
             # list of names, keep / drop / skip consistency
             if len(allnames) >= 2:
                 a = allnames[0]
